@@ -43,7 +43,7 @@ RULE = ("whole runs: seeded configurations of harness.wholerun.make_config (plac
 
 
 VARIANTS = ["base", "noise", "fix", "mix", "two", "slowfu", "slowogi", "all", "sims2", "dates", "names", "deploy",
-            "ids", "shared", "pool6", "sims6", "bounds"]
+            "ids", "shared", "pool6", "sims6", "bounds", "wide", "wide", "hist"]
 
 # audit/LESSONS.md item 2: boundary periods put into the generator on purpose (start, end); every end (month, day)
 # is not before the start's, so no trailing partial year (the planner crash recorded under C06)
@@ -88,6 +88,11 @@ def make_variant(rng, kind, quick):
         ov["ndays"] = (date(*en) - date(*st)).days + 1
     if kind in ("sims6", "pool6"):
         ov.update({"ndays": 120, "n_sites": 4})
+    if kind == "wide":
+        # harness.wholerun "wide" configurations: leaves the base generator never varies / boundary values;
+        # every value the model needs is read from the cfg or from the constructed objects, never assumed
+        ov["wide"] = True
+        ov["ndays"] = rng.choice([120, 200])
     if kind == "slowogi" and rng.random() < 0.5:
         # a multi-day survey / an outstanding request straddling New Year
         ov["start"] = [rng.choice([2022, 2023]), rng.choice([11, 12]), 1]
@@ -165,6 +170,13 @@ def make_variant(rng, kind, quick):
         cfg["_run"] = {"debug": False, "processes": 1}
     elif kind == "sims6":
         cfg["n_sims"] = 6            # batches of 5 + 1
+    elif kind == "hist":
+        # a run on a folder an EARLIER run with one different defining leaf has left behind (generator cache,
+        # output folder): the second run is compared with the model
+        prev, what = W.prev_variant(cfg, rng)
+        prev["sim_trace"] = False
+        cfg["_prev"] = prev
+        cfg["_prev_differs"] = what
     elif kind == "bounds":
         # LESSONS 3: zero and maximal parameter values
         M["AIR"]["follow_up"].update({"proportion": 0.0, "delay": 0, "threshold": 0.0})
@@ -318,10 +330,13 @@ def run(ctx):
                            "computed by the model (Sim.dateOf) and compared with datetime on every run")
     core.lean_stage(ctx, MODULE, FILE, drivers=["drv_sim"])
     core.lean_stage(ctx, MODULE2, FILE2)          # C09 lifted to the integrated model
-    cfgs = configs(ctx, ctx.pick(17, 136))
+    cfgs = configs(ctx, ctx.pick(20, 140))
 
     def one(cfg):
         r = cfg.get("_run") or {}
+        if cfg.get("_prev") is not None:
+            prev = cfg["_prev"]
+            return cfg, W.run_after(prev, {k: v for k, v in cfg.items() if k != "_prev"})
         return cfg, W.run_config(cfg, debug=r.get("debug", True), processes=r.get("processes", 1))
 
     with concurrent.futures.ThreadPoolExecutor(max_workers=ctx.pick(6, 8)) as ex:
@@ -355,7 +370,10 @@ def replay(ctx, data):
         return 1
     cfg = inp["cfg"]
     r = cfg.get("_run") or {}
-    res = W.run_config(cfg, debug=r.get("debug", True), processes=r.get("processes", 1))
+    if cfg.get("_prev") is not None:
+        res = W.run_after(cfg["_prev"], {k: v for k, v in cfg.items() if k != "_prev"})
+    else:
+        res = W.run_config(cfg, debug=r.get("debug", True), processes=r.get("processes", 1))
     if res.rc != 0:
         print("the real simulator crashed on this configuration (rc=%d):" % res.rc)
         print(res.log[-1500:])
